@@ -309,7 +309,8 @@ struct RealNumberInfo<Number_T, 4U> {
     static constexpr const SizeT32 ExponentMask = 0x7F800000U;
     static constexpr const SizeT32 MantissaMask = 0x7FFFFFU;
     static constexpr const SizeT32 LeadingBit   = 0x800000U;
-    static constexpr const SizeT32 MaxCut       = 30U;
+    // The working integer of a float holds 2^24 * 5^99 (256 bits): nothing has to be cut below this precision.
+    static constexpr const SizeT32 MaxCut       = 50U;
 };
 
 // double
